@@ -8,22 +8,31 @@ META = dict(
     property_id='C11',
     design_ref='DESIGN.md section 4, C11',
     technique='Coq proof (token/stack-machine model, induction over grammar derivations and values) + source-generated leaf functions + extracted-model correspondence + Python json as independent parser',
-    level_text=('Theorems in coq/C11/Props.v (34, all closed under the global context) about the executable model of tockenizer::next/'
-                'parse_string/read_4_digits/parse_number, parse_stream, generic_append/write_value and the extraction traits, for all '
+    level_text=('Theorems in coq/C11/Props.v (68, all closed under the global context) about the executable model of tockenizer::next/'
+                'parse_string/read_4_digits/parse_number, parse_stream, generic_append/write_value, the extraction traits and the value API, for all '
                 'byte strings / values (unbounded): parsing terminates with Ok/Fail (fuel S|input| never exhausted); an accepted tree has only '
-                'valid UTF-8 strings and keys, strictly sorted hence pairwise different keys, no undefined member and nesting <= 512, and '
-                'the bound is tight (512 accepted, 513 rejected); a failed load returns the old target; every text of an inductive '
-                'RFC 8259 grammar (whitespace anywhere allowed, all escapes, paired surrogates, full number grammar, unique keys, nesting '
-                'budget <= 512) is accepted with exactly the denoted value, also in prefix mode; the writer output of a value without '
-                'undefined members, with valid UTF-8 strings and printable numbers lies in that grammar for the compact and every readable '
-                'layout, so save then load returns the value (numbers through the 16-digit printer) and every later round is exact; '
-                'integer extraction returns the exact value or fails. Refuted and recorded as known findings: a string holding ill-formed '
-                'UTF-8 and the two largest finite doubles are written to text the reader rejects. Leaf functions (UTF-8/UTF-16 helpers, '
-                'escape switch, depth constant) are regenerated from the current source and proved equal to the model leafs.'),
-    level_note=('Trusted: Coq kernel + vm_compute; cxx2v translator / clang AST (plus the escape-switch extractor in checks/C11.py); '
+                'valid UTF-8 strings and keys, strictly sorted hence pairwise different keys, no undefined member and nesting <= 512; the bound is '
+                'exact for every mixture of arrays and objects (512 levels accepted, a 513th opening bracket or brace rejected); a duplicate (decoded) key '
+                'is an error on every token; lone, reversed and split surrogate escapes are rejected; a failed load returns the old target; every text of an '
+                'inductive RFC 8259 grammar (whitespace anywhere allowed, all escapes, paired surrogates, full number grammar, unique keys, nesting '
+                'budget <= 512) is accepted with exactly the denoted value, also in prefix mode; conversely whatever is accepted is, token by token, a text of a left-to-right token grammar '
+                '(JSON values plus one extension: a comma directly before a closing bracket or brace) with exactly the returned value, and every such token text nested at most 512 deep is accepted (an exact characterisation of acceptance, in full and in prefix mode); before a token the tokenizer skips exactly whitespace and // comments; string tokens are exactly the literals of '
+                'the string grammar with valid UTF-8 content; the language of number lexemes the tokenizer accepts is '
+                'exactly -?(D+(.D*)?|.D+)([eE][+-]?D+)? restricted to a leading minus or digit (under the stated law of strtod), it contains the RFC numbers and '
+                'differs from them by exactly three classes (leading zeros, empty integer part, empty fraction; decided harmless, pinned by the oracle); '
+                'the writer output of a value without undefined members, with valid UTF-8 strings and printable numbers lies in the RFC grammar for the compact '
+                'and every readable layout, so save then load returns the value (numbers through the 16-digit printer) and every later round is exact; with the '
+                'printer and reader made concrete on integers, every value whose numbers are integers below 2^53 in magnitude (both signs, -0) round-trips '
+                'exactly in the first round; object member order is the byte order of keys independent of insertion order, operator== is reflexive on NaN-free '
+                'values; integer extraction returns the exact value or fails. Refuted and recorded as known findings: a string holding ill-formed '
+                'UTF-8 and the two largest finite doubles are written to text the reader rejects. Leaf functions and tables (UTF-8/UTF-16 helpers, '
+                'writer escape switch, reader dispatch switch with keyword tails, reader escape switch, control-character and hex-digit tests, depth constant) '
+                'are regenerated from the current source and proved equal to the model leafs.'),
+    level_note=('Trusted: Coq kernel + vm_compute; cxx2v translator / clang AST (plus the escape-switch and switch-table extractors in checks/C11.py); '
                 'extraction; the hand model of the tokenizer loop, of libstdc++ num_get float accumulation and of the explicit-stack '
                 'loop (tied by correspondence on every generated case, exhaustive for documents of <= 2 bytes); '
-                'strtod, the 16-digit printer and double->float rounding are parameters of the model (universally quantified in the theorems, '
+                'strtod, the 16-digit printer and double->float rounding are parameters of the model (universally quantified in the theorems; concrete on integers below 2^53, '
+                'where the driver checks the platform functions against the computed ones on every case; '
                 'instantiated by the platform functions in the model driver and cross-checked against Python float()/repr in the oracle). '
                 'The grammar theorem takes "the decoded content of each string literal is valid UTF-8" as a premise of the grammar. '
                 'Stream locale handling (imbue) is exercised by the harness only; stream flags other than the locale are not covered.'),
@@ -148,9 +157,312 @@ def gen_escape_leaf():
     vlib.write_if_changed(os.path.join(vlib.COQ, 'gen', 'Gen_json_esc.v'), txt)
 
 
+# ----------------------------------------------------------------------------------------------
+# tie T for the reader: the dispatch switch of tockenizer::next, the escape switch of parse_string and the byte
+# tests of parse_string / read_4_digits.  A switch is read from the clang AST as: case constants -> summary of the
+# statements that run for them (member calls with their string-literal arguments, returned names, increments,
+# appended characters, break, loops), robust against renamings and casts; the summaries are mapped to class numbers
+# below and anything unexpected is Unsupported (tie broken).  The byte tests are translated by cxx2v's expression
+# translator.  Result: coq/gen/Gen_json_tok.v.
+# ----------------------------------------------------------------------------------------------
+def _strip(n):
+    while n.get('kind') in ('ImplicitCastExpr', 'ParenExpr', 'ExprWithCleanups', 'MaterializeTemporaryExpr', 'ConstantExpr',
+                            'CXXFunctionalCastExpr', 'CStyleCastExpr', 'CXXStaticCastExpr'):
+        n = n['inner'][0]
+    return n
+
+
+def _events(n, out):
+    """summary events of one statement, in source order"""
+    k = n.get('kind')
+    if k in ('BreakStmt',):
+        out.append('break')
+    elif k == 'ReturnStmt':
+        e = _strip(n['inner'][0]) if n.get('inner') else None
+        if e is None:
+            out.append('ret')
+        elif e['kind'] == 'DeclRefExpr':
+            out.append('ret:' + e['referencedDecl']['name'])
+        elif e['kind'] == 'CXXBoolLiteralExpr':
+            out.append('ret:' + ('true' if e['value'] else 'false'))
+        else:
+            out.append('ret:?' + e['kind'])
+    elif k == 'UnaryOperator' and n.get('opcode') in ('++', '--'):
+        e = _strip(n['inner'][0])
+        out.append('%s:%s' % (n['opcode'], e.get('name') or (e.get('referencedDecl') or {}).get('name')))
+    elif k == 'CXXMemberCallExpr':
+        callee = n['inner'][0]
+        args = []
+        for a in n['inner'][1:]:
+            a = _strip(a)
+            args.append(a['value'] if a['kind'] == 'StringLiteral' else '?')
+        out.append('call:%s(%s)' % (callee.get('name'), ','.join(args)))
+    elif k == 'CXXOperatorCallExpr' and _strip(n['inner'][0]).get('referencedDecl', {}).get('name') == 'operator+=' or \
+            k == 'CXXOperatorCallExpr' and n['inner'][0].get('kind') == 'ImplicitCastExpr' and \
+            _strip(n['inner'][0]).get('referencedDecl', {}).get('name') == 'operator+=':
+        tgt = _strip(n['inner'][1])
+        val = _strip(n['inner'][2])
+        tn = tgt.get('name') or (tgt.get('referencedDecl') or {}).get('name')
+        if val['kind'] == 'CharacterLiteral':
+            out.append('append:%s:%d' % (tn, val['value']))
+        elif val['kind'] == 'DeclRefExpr':
+            out.append('append:%s:var:%s' % (tn, val['referencedDecl']['name']))
+        else:
+            out.append('append:%s:?' % tn)
+    elif k == 'CXXOperatorCallExpr' and _strip(n['inner'][0]).get('referencedDecl', {}).get('name') == 'operator<<':
+        _events(n['inner'][1], out)
+        val = _strip(n['inner'][2])
+        if val['kind'] == 'CharacterLiteral':
+            out.append('out:%d' % val['value'])
+        elif val['kind'] == 'StringLiteral':
+            out.append('out:str:' + val['value'])
+        elif val['kind'] == 'DeclRefExpr':
+            out.append('out:var:' + val['referencedDecl']['name'])
+        else:
+            out.append('out:?')
+    elif k == 'CallExpr' and _strip(n['inner'][0]).get('kind') == 'DeclRefExpr':
+        out.append('fcall:' + _strip(n['inner'][0])['referencedDecl']['name'])
+    elif k in ('WhileStmt', 'ForStmt', 'DoStmt'):
+        out.append('loop')
+        for c in n.get('inner', []):
+            if c:
+                _events(c, out)
+    elif k in ('IfStmt', 'CompoundStmt', 'BinaryOperator', 'UnaryOperator', 'DeclStmt', 'VarDecl', 'ParenExpr', 'ImplicitCastExpr',
+               'ExprWithCleanups', 'NullStmt', 'CXXOperatorCallExpr', 'CallExpr'):
+        for c in n.get('inner', []):
+            if c:
+                _events(c, out)
+    # leaves (DeclRefExpr, literals, MemberExpr ...) carry no event
+
+
+def _switch_groups(sw):
+    """[(set of case constants or 'default', [events])]"""
+    import cxx2v
+    body = sw['inner'][-1]
+    groups = []
+    open_groups = []
+    closed = True
+    for st in body['inner']:
+        labels = []
+        while st.get('kind') in ('CaseStmt', 'DefaultStmt'):
+            if st['kind'] == 'CaseStmt':
+                labels.append(int(_strip(st['inner'][0]).get('value', cxx2v.const_int(st['inner'][0]))))
+            else:
+                labels.append('default')
+            st = st['inner'][-1]
+        if labels:
+            g = (labels, [])
+            groups.append(g)
+            if closed:
+                open_groups = [g]
+            else:
+                open_groups.append(g)
+            closed = False
+        ev = []
+        _events(st, ev)
+        for g in open_groups:
+            g[1].extend(ev)
+        if st.get('kind') in ('BreakStmt', 'ReturnStmt'):
+            closed = True
+    return groups
+
+
+def _find_all(n, kind, out):
+    if isinstance(n, dict):
+        if n.get('kind') == kind:
+            out.append(n)
+        for c in n.get('inner', []):
+            _find_all(c, kind, out)
+
+
+def _method(src, name, marker_kind=None):
+    import cxx2v
+    objs = cxx2v.run_clang(src, name, vlib.repo_incs())
+    ms = [o for o in objs if o.get('kind') == 'CXXMethodDecl' and o.get('name') == name and any(c.get('kind') == 'CompoundStmt' for c in o.get('inner', []))]
+    if len(ms) != 1:
+        raise cxx2v.Unsupported('%s: %d method definitions found' % (name, len(ms)))
+    return ms[0]
+
+
+TOK_CLASS = {
+    ('ret:c',): 1,
+    ('break',): 2,
+    ('++:line', 'break'): 3,
+    ('call:sungetc()', 'call:parse_string()', 'ret:tock_str', 'ret:tock_err'): 4,
+    ('call:sungetc()', 'call:parse_number()', 'ret:tock_number', 'ret:tock_err'): 8,
+    ('ret:tock_err',): 0,
+}
+KW_TOKEN = {'tock_true': 5, 'tock_null': 6, 'tock_false': 7}
+
+
+def gen_token_leafs():
+    import cxx2v
+    src = os.path.join(vlib.REPO, 'src/json.cpp')
+    lines = ['(* GENERATED by checks/C11.py from %s (tockenizer::next, parse_string, read_4_digits) -- do not edit *)' % src,
+             'From Coq Require Import ZArith List Bool.', 'From CppcmsV Require Import Base.CSem.',
+             'Local Open Scope Z_scope.', 'Import ListNotations.', '']
+    # --- tockenizer::next: byte -> class, keyword tails -------------------------------------------
+    m = _method(src, 'next')
+    sws = []
+    _find_all(m, 'SwitchStmt', sws)
+    if len(sws) != 1:
+        raise cxx2v.Unsupported('next: %d switch statements' % len(sws))
+    cls, kws = {}, {}
+    dflt = None
+    for labels, ev in _switch_groups(sws[0]):
+        ev = tuple(ev)
+        k = TOK_CLASS.get(ev)
+        kw = None
+        if k is None and len(ev) == 3 and ev[0].startswith('call:check("') and ev[2] == 'ret:tock_err' and ev[1][4:] in KW_TOKEN:
+            k = KW_TOKEN[ev[1][4:]]
+            kw = json.loads(ev[0][len('call:check('):-1])
+        if k is None and ev and ev[0] == 'call:check("/")' and ev == ('call:check("/")', 'loop', 'call:sbumpc()', 'break', 'ret:tock_eof', 'ret:tock_err'):
+            k = 9
+        if k is None:
+            raise cxx2v.Unsupported('next: unexpected case body %r for %r' % (ev, labels))
+        for l in labels:
+            if l == 'default':
+                dflt = k
+            else:
+                cls[l] = k
+                if kw is not None:
+                    kws[l] = kw
+    if dflt is None:
+        raise cxx2v.Unsupported('next: no default case')
+    chain = ''.join('if Z.eqb c %d then %d else ' % (c, k) for c, k in sorted(cls.items()))
+    lines += ['(* class of the first byte of a token: 1 structural (returned as is), 2 skipped, 3 newline (line++), 4 string, 5 true,',
+              '   6 null, 7 false, 8 number, 9 comment start, 0 error *)',
+              'Definition g_json_tokclass (c : Z) : Z := %s%d.' % (chain, dflt),
+              'Definition g_json_kw (c : Z) : list Z := %s[].' % ''.join(
+                  'if Z.eqb c %d then [%s] else ' % (c, '; '.join(str(ord(x)) for x in kw)) for c, kw in sorted(kws.items())), '']
+    # --- parse_string: escape switch ----------------------------------------------------------------
+    m = _method(src, 'parse_string')
+    sws = []
+    _find_all(m, 'SwitchStmt', sws)
+    if len(sws) != 1:
+        raise cxx2v.Unsupported('parse_string: %d switch statements' % len(sws))
+    esc = {}
+    dflt = None
+    for labels, ev in _switch_groups(sws[0]):
+        ev = tuple(ev)
+        if ev == ('append:str:var:c', 'break'):
+            v = -3
+        elif len(ev) == 2 and ev[1] == 'break' and re.match(r'append:str:\d+\Z', ev[0]):
+            v = int(ev[0].split(':')[2])
+        elif ev == ('ret:false',):
+            v = -1
+        elif ev and ev[0] == 'call:read_4_digits(?)' and ev[-1] == 'break':
+            v = -2
+        else:
+            raise cxx2v.Unsupported('parse_string: unexpected case body %r for %r' % (ev, labels))
+        for l in labels:
+            if l == 'default':
+                dflt = v
+            else:
+                esc[l] = v
+    if dflt is None:
+        raise cxx2v.Unsupported('parse_string: no default case')
+    lines += ['(* byte after a backslash: the character appended, -3 the byte itself, -2 the \\u path, -1 rejected *)',
+              'Definition g_json_unesc (c : Z) : Z := %s(%d).' % (''.join('if Z.eqb c %d then (%d) else ' % (c, v) for c, v in sorted(esc.items())), dflt), '']
+    # --- byte tests: control character in parse_string, hex digit in read_4_digits --------------------
+    def cond_fn(meth, pick, coqname, width_signed):
+        mm = _method(src, meth)
+        ifs = []
+        _find_all(mm, 'IfStmt', ifs)
+        cands = [i for i in ifs if pick(i)]
+        if len(cands) != 1:
+            raise cxx2v.Unsupported('%s: %d candidate tests for %s' % (meth, len(cands), coqname))
+        cond = cands[0]['inner'][0]
+        refs = []
+        _find_all(cond, 'DeclRefExpr', refs)
+        ids = set(r['referencedDecl']['id'] for r in refs if r['referencedDecl'].get('kind') == 'VarDecl')
+        if len(ids) != 1:
+            raise cxx2v.Unsupported('%s: test for %s mentions %d variables' % (meth, coqname, len(ids)))
+        tr = cxx2v.Tr('', {}, {})
+        tr.consts = {}
+        tr.ids[ids.pop()] = 'c'
+        return 'Definition %s (c : Z) : bool := %s.' % (coqname, tr.expr(cond))
+
+    def has_kind(n, kind):
+        out = []
+        _find_all(n, kind, out)
+        return bool(out)
+
+    def lits(n):
+        out = []
+        _find_all(n, 'IntegerLiteral', out)
+        _find_all(n, 'CharacterLiteral', out)
+        return sorted(int(x['value']) for x in out)
+    lines += ['(* parse_string: if(0<= c && c <= 0x1F) return false;   (c is an int holding a byte) *)',
+              cond_fn('parse_string', lambda i: len(lits(i['inner'][0])) == 2 and lits(i['inner'][0])[0] == 0 and _strip(i['inner'][0]).get('opcode') == '&&', 'g_json_is_ctl', False),
+              '(* read_4_digits: the test under which the loop continues (c is a char) *)',
+              cond_fn('read_4_digits', lambda i: has_kind(i['inner'][1], 'ContinueStmt'), 'g_json_is_hex', True), '']
+    # --- writer layout: indent(out,c,tabs) and pad(out,tb) ------------------------------------------------
+    objs = cxx2v.run_clang(src, 'indent', vlib.repo_incs())
+    fs = [o for o in objs if o.get('kind') == 'FunctionDecl' and o.get('name') == 'indent' and any(c.get('kind') == 'CompoundStmt' for c in o.get('inner', []))]
+    if len(fs) != 1:
+        raise cxx2v.Unsupported('indent: %d definitions' % len(fs))
+    sws = []
+    _find_all(fs[0], 'SwitchStmt', sws)
+    ifs = []
+    _find_all(fs[0], 'IfStmt', ifs)
+    if len(sws) != 1 or len(ifs) != 1:
+        raise cxx2v.Unsupported('indent: expected one if and one switch')
+    ev = []
+    _events(ifs[0], ev)
+    cond = _strip(ifs[0]['inner'][0])
+    if ev != ['out:var:c', 'ret'] or cond.get('opcode') != '<' or lits(cond) != [0]:
+        raise cxx2v.Unsupported('indent: compact branch is not `if(tabs < 0) { out<<c; return; }`: %r' % ev)
+
+    def code(e, where):
+        if e == 'out:var:c':
+            return ['(-1)']
+        if e == '++:tabs':
+            return ['(-2)']
+        if e == '--:tabs':
+            return ['(-3)']
+        if e == 'fcall:pad':
+            return ['(-4)']
+        mm = re.match(r'out:(\d+)\Z', e)
+        if mm:
+            return [mm.group(1)]
+        if e.startswith('out:str:'):
+            return [str(ord(ch)) for ch in json.loads(e[len('out:str:'):])]
+        raise cxx2v.Unsupported('indent: unexpected statement %r in case %r' % (e, where))
+    table = {}
+    for labels, ev in _switch_groups(sws[0]):
+        if not ev or ev[-1] != 'break':
+            raise cxx2v.Unsupported('indent: case %r does not end with break' % labels)
+        codes = [x for e in ev[:-1] for x in code(e, labels)]
+        for l in labels:
+            table[l] = codes
+    objs = cxx2v.run_clang(src, 'pad', vlib.repo_incs())
+    fs = [o for o in objs if o.get('kind') == 'FunctionDecl' and o.get('name') == 'pad' and any(c.get('kind') == 'CompoundStmt' for c in o.get('inner', []))]
+    if len(fs) != 1:
+        raise cxx2v.Unsupported('pad: %d definitions' % len(fs))
+    ev = []
+    _events([c for c in fs[0]['inner'] if c.get('kind') == 'CompoundStmt'][0], ev)
+    mm = re.match(r'out:(\d+)\Z', ev[-1]) if ev else None
+    if len(ev) != 3 or ev[0] != 'loop' or ev[1] != '--:tb' or not mm:
+        raise cxx2v.Unsupported('pad: not `for(;tb > 0;tb--) out<<CHAR`: %r' % ev)
+    lines += ['(* indent(out,c,tabs) for tabs >= 0: the statements of each case as codes: a byte = that character is written, -1 = c is written,',
+              '   -2 = tabs++, -3 = tabs--, -4 = pad(out,tabs); for tabs < 0 only c is written.  pad writes tb times the character g_json_pad_char *)',
+              'Definition g_json_indent (c : Z) : list Z := %s[].' % ''.join(
+                  'if Z.eqb c %d then [%s] else ' % (c, '; '.join(v)) for c, v in sorted(table.items())),
+              'Definition g_json_pad_char : Z := %s.' % mm.group(1), '']
+    vlib.write_if_changed(os.path.join(vlib.COQ, 'gen', 'Gen_json_tok.v'), '\n'.join(lines))
+
+
 def gen_all():
     import cxx2v
     errs = vlib.gen_coq(GEN)
+    try:
+        with vlib.Lock('gen-Gen_json_tok'):
+            gen_token_leafs()
+    except cxx2v.Unsupported as e:
+        errs.append(('Gen_json_tok', str(e)))
+        vlib.write_if_changed(os.path.join(vlib.COQ, 'gen', 'Gen_json_tok.v'),
+                              '(* translator failed *)\nDefinition broken : False := I.\n')
     try:
         with vlib.Lock('gen-Gen_json_esc'):
             gen_escape_leaf()
@@ -350,9 +662,20 @@ _dec = json.JSONDecoder(object_pairs_hook=_pairs, parse_float=lambda x: ('L', x)
                         parse_constant=_const, strict=True)
 
 
-def py_rfc(doc):
+def _pairs_lax(ps):
+    seen = {}
+    for k, v in ps:
+        seen.setdefault(k, v)
+    return ('O', list(seen.items()))
+
+
+_dec_lax = json.JSONDecoder(object_pairs_hook=_pairs_lax, parse_float=lambda x: ('L', x), parse_int=lambda x: ('L', x),
+                            parse_constant=_const, strict=True)
+
+
+def py_rfc(doc, allow_dup=False):
     """bytes -> tree in the notation of parse_tree (numbers as ('D', bits)) when doc is an RFC 8259 text with unique
-    keys, finite numbers, properly paired surrogates; else None"""
+    keys (unless allow_dup), finite numbers, properly paired surrogates; else None"""
     try:
         s = doc.decode('utf-8')
     except UnicodeDecodeError:
@@ -360,7 +683,7 @@ def py_rfc(doc):
     if s[:1] == '\ufeff':
         return None
     try:
-        v = _dec.decode(s)
+        v = (_dec_lax if allow_dup else _dec).decode(s)
     except (ValueError, _Reject, RecursionError):
         return None
 
@@ -389,6 +712,72 @@ def py_rfc(doc):
         return None
 
 
+_NUMRUN_RE = re.compile(rb'[-+0-9.eE]+')
+_LEN_PARTS_RE = re.compile(rb'(-?)([0-9]*)(\.?)([0-9]*)((?:[eE][+-]?[0-9]+)?)\Z')
+
+
+def normalise_extensions(doc):
+    """rewrite the documented extensions of the reader into RFC 8259: `// ...` comments (outside strings) become a newline; a number
+    lexeme of the three lenient classes (leading zeros, empty integer part after the minus, empty fraction) becomes the RFC lexeme of the
+    same value; a comma directly (up to whitespace) before a closing bracket or brace is dropped.  Everything else is copied, so that a
+    document accepted for any other reason still fails the strict reader."""
+    seg = []                                            # (kind, bytes): 's' string, 'w' whitespace, 'n' number, 'o' other byte
+    i, n = 0, len(doc)
+    while i < n:
+        c = doc[i]
+        if c == 0x22:                                   # string literal: copy to the closing quote
+            j = i + 1
+            while j < n and doc[j] != 0x22:
+                j += 2 if doc[j] == 0x5c else 1
+            seg.append(('s', doc[i:min(j + 1, n)]))
+            i = j + 1
+        elif c == 0x2f and doc[i + 1:i + 2] == b'/':    # comment to end of line / input
+            j = doc.find(b'\n', i)
+            seg.append(('w', b'\n'))
+            i = n if j < 0 else j + 1
+        elif c in b' \t\r\n':
+            seg.append(('w', doc[i:i + 1]))
+            i += 1
+        elif c in b'-0123456789':
+            m = _NUMRUN_RE.match(doc, i)
+            run = m.group(0)
+            # the scanner takes a minus only in front and stops at a second point / exponent: the accepted lexeme is the longest lenient prefix
+            best = None
+            for k in range(len(run), 0, -1):
+                if LENIENT_NUM_RE.match(run[:k]) and run[:1] != b'.':
+                    best = k
+                    break
+            if best is None:
+                seg.append(('o', run))
+                i = m.end()
+                continue
+            sgn, ip, pt, fp, ex = _LEN_PARTS_RE.match(run[:best]).groups()
+            ip = ip.lstrip(b'0') or b'0'
+            seg.append(('n', sgn + ip + ((b'.' + fp) if fp else b'') + ex))
+            i += best
+        else:
+            seg.append(('o', doc[i:i + 1]))
+            i += 1
+    nxt_of = [None] * len(seg)                          # next / previous segment that is not whitespace
+    cur = None
+    for k in range(len(seg) - 1, -1, -1):
+        nxt_of[k] = cur
+        if seg[k][0] != 'w':
+            cur = seg[k][1]
+    out = bytearray()
+    prv = None
+    for k, (kind, b) in enumerate(seg):
+        if kind == 'o' and b == b',' and nxt_of[k] in (b']', b'}') and prv not in (None, b'[', b'{', b',', b':'):
+            prv = b
+            continue
+        if kind != 'w':
+            prv = b
+        out += b
+    return bytes(out)
+
+
+NUMLIKE_RE = re.compile(rb'[-+0-9.eE]+\Z')
+LENIENT_NUM_RE = re.compile(rb'-?([0-9]+\.?[0-9]*|\.[0-9]+)([eE][+-]?[0-9]+)?\Z')
 NUM_RE = re.compile(rb'-?(0|[1-9][0-9]*)(\.[0-9]+)?(e[+-]?[0-9]+)?\Z')
 
 
@@ -530,11 +919,30 @@ def oracle(case, out):
                 return ('parsed-undefined', 'accepted tree holds an undefined value')
         if tree_depth(t) > DEPTH_BOUND:
             return ('parsed-depth-over-bound', 'accepted tree nests deeper than 512')
+        if NUMLIKE_RE.match(doc) and consumed == len(doc):
+            # a document that is one number-like lexeme: accepted only inside the documented language (RFC 8259 numbers plus
+            # leading zeros / empty integer part after the minus / empty fraction, see docs/C11.md section 2b), with the correctly rounded value
+            if not LENIENT_NUM_RE.match(doc) or doc[:1] == b'.':
+                return ('number-accepted-outside-documented-language', 'the lexeme %r was accepted as a number' % doc[:80])
+            if t != ('D', bits_of(float(doc.decode('ascii')))):
+                return ('number-value-wrong', 'the lexeme %r was read as %s' % (doc[:80], fmt_tree(t)))
         if must and (full or consumed == len(doc.rstrip(b' \t\r\n'))):
             if t != ref:
                 return ('rfc-document-parsed-differently', 'independent reader gives %s' % fmt_tree(ref)[:300])
         if ref is not None and not must and full:
             return ('depth-over-bound-accepted', 'RFC document nested deeper than 512 accepted')
+        if ref is None:
+            # exactness: whatever is accepted must be an RFC 8259 document up to the documented extensions (comments, lenient number lexemes),
+            # and denote the same tree
+            nd = normalise_extensions(doc[:consumed])
+            nref = py_rfc(nd)
+            if nref is None and py_rfc(nd, allow_dup=True) is None:
+                return ('accepted-outside-documented-language', 'the accepted text is not RFC 8259 even after removing // comments, trailing commas and normalising lenient numbers')
+            if nref is not None and t != nref:
+                return ('rfc-document-parsed-differently', 'normalised document denotes %s' % fmt_tree(nref)[:300])
+        if ref is None and full and py_rfc(doc, allow_dup=True) is not None:
+            # well-formed in every other respect: accepting it means a member was silently dropped
+            return ('duplicate-key-document-accepted', 'a document whose only defect is a repeated key in one object was accepted')
         return None
     if op in ('w', 'wd'):
         try:
@@ -857,6 +1265,12 @@ def gen_cases(ctx):
             cases.append(P(b'"x\\u%04X\\u%04x y"' % (hi, lo), 1, 'surr'))
         for tail in [b'', b'x', b'\\n', b'\\', b'\\u', b'\\u12', b'\\udc0', b'\\udc0g', b'"', b'\\\\udc00', b' \\udc00', b'\\U0041', b'\\udc00\\udc00']:
             cases.append(P(b'"\\u%04x' % hi + tail + b'"', 1, 'surr'))
+    # something between the two halves of a pair: the pending-surrogate tests before and after the backslash
+    for hi in (0xd800, 0xdbff, 0xd83d):
+        for mid in ESC_SIMPLE + [b'\\u0041', b'\\u0000', b'x', b' ', b'\\', b'\\x', b'\\ud800', b'\\U', b'\\u']:
+            for lo in (0xdc00, 0xdfff, 0xde00):
+                cases.append(P(b'"\\u%04x' % hi + mid + b'\\u%04x"' % lo, 1, 'surr'))
+                cases.append(P(b'["a\\u%04x' % hi + mid + b'\\u%04x", 1]' % lo, 1, 'surr'))
     for _ in range(ctx.scale(1500, 30000)):
         hi = rng.randrange(0xd800, 0xdc00)
         lo = rng.randrange(0xdc00, 0xe000)
@@ -890,6 +1304,37 @@ def gen_cases(ctx):
         for ctxt in (b'%s', b'[%s]', b'{"a":%s}', b' %s ', b'[%s,%s]', b'[%s\n]'):
             cases.append(P(ctxt.replace(b'%s', nlex), 1, 'oddnum'))
         cases.append(P(nlex + b'x', 0, 'oddnum'))
+    # every short number-like document: the case splits of NumGrammar.v (sign, leading zeros, point, exponent letter and sign)
+    for n in range(1, 5):
+        for t in itertools.product(b'-+019.eE', repeat=n):
+            cases.append(P(bytes(t), 1, 'numex'))
+            if n <= 3:
+                cases.append(P(b'[' + bytes(t) + b']', 1, 'numex'))
+    for t in itertools.product(b'-01.e+', repeat=5):
+        cases.append(P(bytes(t), 1, 'numex'))
+    if not q:
+        for t in itertools.product(b'-01.e', repeat=7):
+            cases.append(P(bytes(t), 1, 'numex'))
+    for _ in range(ctx.scale(1500, 40000)):
+        # accepted-but-not-RFC shapes with random digits: leading zeros, empty integer part, empty fraction
+        dg = lambda k: bytes(rng.choice(b'0123456789') for _ in range(k))
+        sign = rng.choice([b'', b'-', b'-', b'+'])
+        shape = rng.randrange(6)
+        if shape == 0:
+            body = b'0' * rng.choice([1, 2, 5]) + dg(rng.choice([1, 3, 17]))
+        elif shape == 1:
+            body = dg(rng.choice([1, 2, 16])) + b'.'
+        elif shape == 2:
+            body = b'.' + dg(rng.choice([1, 2, 20]))
+        elif shape == 3:
+            body = b'0' * rng.choice([1, 3]) + b'.' + dg(rng.choice([0, 1, 5]))
+        elif shape == 4:
+            body = dg(rng.choice([1, 5])) + b'.' + dg(rng.choice([0, 3])) + rng.choice([b'.', b'e', b'E', b'e+', b'.5', b'e5e', b'e.5', b'e-'])
+        else:
+            body = dg(rng.choice([0, 1, 3])) + rng.choice([b'', b'.']) + dg(rng.choice([0, 1, 3]))
+        ep = rng.choice([b'', b'', b'e5', b'E-3', b'e+308', b'e309', b'e-330', b'E007', b'e', b'e+'])
+        nlex = sign + body + ep
+        cases.append(P(rng.choice([b'%s', b'[%s]', b'{"a":%s}', b' %s ']).replace(b'%s', nlex), 1, 'numlen'))
     for _ in range(ctx.scale(4000, 150000)):
         nlex = rnd_number_lexeme(rng)
         ctxt = rng.choice([b'%s', b'[%s]', b'{"a":%s}', b'[1,%s ]', b' %s\n', b'[%s\t,0]'])
@@ -908,6 +1353,27 @@ def gen_cases(ctx):
         cases.append(P(b'[' * d, 1, 'nest'))
         cases.append(P(b'[' * d + b']' * max(0, d - 1), 1, 'nest'))
         cases.append(P(b'[' * d + b']' * (d + 1), 1, 'nest'))
+    # random mixtures of array and object levels at the bound (DepthDup.v: depth_512_accepted / depth_513_rejected)
+    def mixture(d, pretty):
+        opens, closes = [], []
+        for i in range(d):
+            w = rng.choice(WS) if pretty else b''
+            if rng.random() < 0.5:
+                opens.append(b'[' + w)
+                closes.append(w + b']')
+            else:
+                key = rng.choice([b'"k"', b'""', b'"\\u006b"', b'"\xc3\xa9"', b'"a b"', b'"\\n"'])
+                opens.append(b'{' + w + key + w + b':' + w)
+                closes.append(w + b'}')
+        return b''.join(opens), b''.join(reversed(closes))
+    for d in (510, 511, 512, 513, 514):
+        for _ in range(ctx.scale(3, 12)):
+            o, c = mixture(d, rng.random() < 0.3)
+            for inner in (b'null', b'"s"', b'-1.5e3', b'[]', b'{}', b'[[]]', b'{"a":{}}', b'[', b'{', b'x', b''):
+                cases.append(P(o + inner + c, 1, 'nestmix'))
+            cases.append(P(o + b'1' + c[:-1], 1, 'nestmix'))
+            cases.append(P(o + b'1' + c + b']', 1, 'nestmix'))
+            cases.append(P(o + b'1' + c + b' x', 0, 'nestmix'))
     # ---- objects / duplicate keys / ordering ---------------------------------------------------
     objs = [b'{"a":1,"a":2}', b'{"a":1,"b":2,"a":3}', b'{"a":{"a":1},"b":{"a":2}}', b'{"a":1,"\\u0061":2}', b'{"\\u00e9":1,"\xc3\xa9":2}',
             b'{"":1,"":2}', b'{"a":1,"A":2}', b'{"b":1,"a":2,"ab":3,"":4,"\xc3\xa9":5,"\x7f":6,"\\u0000":7}', b'{"a":[],"a":[]}',
@@ -995,6 +1461,18 @@ def gen_cases(ctx):
         cases.append(W(('D', bits_of(x))))
         cases.append(W([('D', bits_of(x)), ('D', bits_of(-x))]))
         cases.append(W(('O', [(b'n', ('D', bits_of(x)))])))
+    # integers: the class of IntRound.v (magnitude below 2^53, both signs, -0) and its edges 2^53, 10^15, 10^16, 10^17
+    ints = set()
+    for k in range(0, 56):
+        ints.update([2 ** k - 1, 2 ** k, 2 ** k + 1])
+    for k in range(0, 19):
+        ints.update([10 ** k - 1, 10 ** k, 10 ** k + 1, 9 * 10 ** k, 5 * 10 ** k])
+    ints.update([2 ** 53 - 2, 2 ** 53 + 2, 2 ** 53 + 4, 123456789012345, 1234567890123456, 999999999999999, 9999999999999998])
+    ints.update(rng.randrange(2 ** rng.randrange(1, 54)) for _ in range(ctx.scale(300, 20000)))
+    il = sorted(ints)
+    for i in range(0, len(il), 6):
+        cases.append(W([('D', bits_of(float(s * n))) for n in il[i:i + 6] for s in (1, -1)]))
+    cases.append(W(('O', [(b'n%d' % n, ('D', bits_of(float(-n)))) for n in il[:40]])))
     for e in range(-324, 309, 1 if not q else 7):
         cases.append(W([('D', bits_of(float('1e%d' % e))), ('D', bits_of(float('9.999999999999999e%d' % e))) if e < 308 else ('N',)]))
     for _ in range(ctx.scale(3000, 100000)):
@@ -1090,7 +1568,7 @@ def run(ctx):
     ctx.proof(res)
     ctx.coverage['trusted_base'] = [
         'Coq 8.16.1 kernel, vm_compute (sweeps, boundary documents)',
-        'tools/cxx2v.py + clang 14 JSON AST (utf8/utf16 helpers of private/utf_iterator.h, json_max_depth) and the escape-switch extractor in checks/C11.py',
+        'tools/cxx2v.py + clang 14 JSON AST (utf8/utf16 helpers of private/utf_iterator.h, json_max_depth, byte tests) and the escape-switch / switch-table extractors in checks/C11.py',
         'extraction: ExtrOcamlBasic, OCaml 4.13.1',
         'harness/C11_json.cpp, ocaml/C11_driver.ml, checks/C11.py (generators, oracles using Python json/float/struct)',
         'hand model of tockenizer::next, parse_string, libstdc++ num_get float accumulation, parse_stream loop, write_value layout (coq/C11/Defs.v)',
@@ -1100,6 +1578,10 @@ def run(ctx):
         'and to_float are parameters of the model, universally quantified in every theorem; write_parse / save_load_roundtrip assume for each number x of the value '
         '(num_ok): print16 x is an RFC 8259 number lexeme and to_double of it is Some (rt x); write_parse_second_round_exact also assumes the same for rt x and '
         'rt (rt x) = rt x (checked on every generated number by the oracle with Python %.16g / float(); false for the two largest finite doubles of each sign: known finding)',
+        'number_token_exact / number_document_rejected: strtod_law = forall x, to_double x <> None <-> (strtod_dec x = true /\\ rounds_finite x = true) with rounds_finite abstract '
+        '(the value of a number stays an oracle; the driver checks the syntactic half on every conversion, the oracle checks every number-like document against Python float)',
+        'integers_roundtrip_exact: print_int_law (the platform %.16g equals the computed print16_int on integers below 2^53 in magnitude) and strtod_int_law (strtod equals the computed '
+        'to_double_int on integer lexemes below 2^53); both checked by the model driver on every case (answer MODEL-HYPOTHESIS-VIOLATED otherwise)',
         'rfc8259_accepted: the grammar Val requires the decoded content of each string literal and key to be valid UTF-8 (utf8_valid) and to_double of each number lexeme to be finite',
         'write_parse: wgood v = no undefined member, strings and keys valid UTF-8 (known finding otherwise), objects sorted by key (std::map invariant), depth v <= 512',
         'signed arithmetic in translated leaf functions does not overflow; char is signed 8-bit, unsigned char 8-bit',
@@ -1120,12 +1602,14 @@ def run(ctx):
     ctx.coverage['rule'] = (
         'cases: p <full> <hex document> | w <tree built through the API> | wd <deep tree, compact layout only> | g <bits of a double> | q <hex string>. Exhaustive: every document of 1 and 2 bytes, '
         'every 3-byte document over a 42-byte JSON alphabet, every byte raw and escaped inside a string, every \\uXXXX (thorough; quick: all boundaries + 3000 random), '
-        'surrogate pair boundary grid, table 3-7 boundary grid of raw UTF-8, nesting 0..11 and 505..520 in nine shapes, every 1-byte string through to_json. '
+        'surrogate pair boundary grid incl. escapes between the halves, table 3-7 boundary grid of raw UTF-8, every number-like document of <= 4 bytes over -+019.eE and of 5 bytes over -01.e+, '
+        'nesting 0..11 and 505..520 in nine shapes, random array/object mixtures at depth 510..514, every 1-byte string through to_json. '
         'Random (seeded): RFC 8259 grammar documents with all escape forms and numbers across the double range, number lexemes, single-byte mutations of 18 small '
-        'documents (every position), mutated grammar documents, random bytes, API trees (finite doubles incl. all powers of ten, NUL/control/multi-byte strings, '
+        'documents (every position), mutated grammar documents, random bytes, API trees (finite doubles incl. all powers of ten, integers 2^k, 2^k+-1, 10^k+-1 and random below 2^53, NUL/control/multi-byte strings, '
         'ill-formed UTF-8, undefined members, depth up to 600, 1500-member containers), extraction at every integer-width and float edge. '
         'non-trivial = non-empty input; distinct = distinct case lines.')
     ctx.coverage['exhaustive'] = False
     ctx.coverage['exhaustive_parts'] = ['all documents of length 1 (x full/partial) and 2', 'all 3-byte documents over a 42-byte alphabet',
-                                        '"<b>", "\\<b>" for every byte b', 'to_json of every 1-byte string']
+                                        '"<b>", "\\<b>" for every byte b', 'to_json of every 1-byte string',
+                                        'all number-like documents of length <= 4 over -+019.eE and of length 5 over -01.e+']
     vlib.differential(ctx, cases, exe, mexe, oracle, nontrivial, classify)
